@@ -256,7 +256,7 @@ func (r *Renderer) constOK(t *Type) bool {
 	case "structlit", "ifacelit", "func":
 		return false
 	case "named":
-		return true
+		return len(t.Args) < 2 // T[A, B]{...} needs an index-list expression, which Wire refuses in values
 	case "ptr", "slice", "array", "map", "chan":
 		return r.constOK(t.Elem)
 	}
@@ -506,33 +506,11 @@ func (r *Renderer) Files() map[string]string {
 			out[path(pi, "prov.go")] = f.String()
 		}
 		// --- sets
-		f = r.newFile(pi, "")
-		n = 0
-		var jn, jv []string
-		for si := range s.Sets {
-			st := &s.Sets[si]
-			if st.Pkg != pi {
-				continue
+		if !(pi == 0 && s.SetsInInject) {
+			f = r.newFile(pi, "")
+			if r.renderSets(f, pi, func(si int) bool { return true }) > 0 {
+				out[path(pi, "sets.go")] = f.String()
 			}
-			n++
-			var rhs string
-			if st.AliasOf >= 0 {
-				rhs = f.refExpr(RSet(st.AliasOf))
-			} else {
-				rhs = fmt.Sprintf("%s.NewSet(%s)", f.use(pkgWire), f.refList(st.Args))
-			}
-			if s.JointSets {
-				jn = append(jn, st.Name)
-				jv = append(jv, rhs)
-				continue
-			}
-			f.p("var %s = %s\n\n", st.Name, rhs)
-		}
-		if len(jn) > 0 {
-			f.p("var %s = %s\n\n", strings.Join(jn, ", "), strings.Join(jv, ",\n\t"))
-		}
-		if n > 0 {
-			out[path(pi, "sets.go")] = f.String()
 		}
 		if n == 0 && len(out) == 0 {
 			continue
@@ -560,6 +538,16 @@ func (r *Renderer) Files() map[string]string {
 		f := r.newFile(0, "wireinject")
 		for _, bp := range s.Blank {
 			f.imports[bp] = "_"
+		}
+		if s.SetsInInject {
+			nf := len(files)
+			pos := 0
+			for k, x := range sortedIntKeys2(files) {
+				if x == fi {
+					pos = k
+				}
+			}
+			r.renderSets(f, 0, func(si int) bool { return si%nf == pos })
 		}
 		for _, ii := range files[fi] {
 			in := &s.Injectors[ii]
@@ -598,6 +586,37 @@ func (r *Renderer) Files() map[string]string {
 		out["zz_drive.go"] = r.renderDriver(home)
 	}
 	return out
+}
+
+// renderSets writes the set variables of package pi selected by pick into f
+// and returns how many were written.
+func (r *Renderer) renderSets(f *gofile, pi int, pick func(si int) bool) int {
+	s := r.S
+	n := 0
+	var jn, jv []string
+	for si := range s.Sets {
+		st := &s.Sets[si]
+		if st.Pkg != pi || !pick(si) {
+			continue
+		}
+		n++
+		var rhs string
+		if st.AliasOf >= 0 {
+			rhs = f.refExpr(RSet(st.AliasOf))
+		} else {
+			rhs = fmt.Sprintf("%s.NewSet(%s)", f.use(pkgWire), f.refList(st.Args))
+		}
+		if s.JointSets {
+			jn = append(jn, st.Name)
+			jv = append(jv, rhs)
+			continue
+		}
+		f.p("var %s = %s\n\n", st.Name, rhs)
+	}
+	if len(jn) > 0 {
+		f.p("var %s = %s\n\n", strings.Join(jn, ", "), strings.Join(jv, ",\n\t"))
+	}
+	return n
 }
 
 func sortedIntKeys(m map[int]int) []int {
